@@ -156,7 +156,8 @@ def check_tables(_):
 def run(ctx):
     from props import c01_deductive
     c01_deductive.run(ctx)
-    from contracts import c_import
+    from contracts import c_import, c_qualname
+    ctx.verify(c_qualname.engine(), c_qualname.VERIFY, min_obligations={c_qualname.KEY: 10})
     ctx.verify(c_import.engine(), c_import.VERIFY, min_obligations={c_import.KEY: 10})
     asm, goal = c_import.roundtrip_lemma()
     ctx.lemma("slice-roundtrip: import(export(slice)) selects the same bits (over the contracts of export_slice, "
